@@ -29,7 +29,12 @@ class InjectedAttributeError(AttributeError):
     pass
 
 
-KEY_FLAVOURS = ("none", "def", "asyncdef")
+KEY_FLAVOURS = ("none", "def", "asyncdef", "nonekey")
+
+
+def _nonekey(x):
+    """A key function whose value for the first key class is None."""
+    return None if x.k == 1 else x.k
 
 
 class GBSys:
@@ -42,12 +47,13 @@ class GBSys:
         items = [Item(1, p + 1, k) for p, k in enumerate(data)]
         if sync:
             self.src = SyncIterSource(self.rec, 1, items)
-            key = None if keyfl == "none" else make_callable("def", self.rec, "key")
+            key = None if keyfl == "none" else make_callable("def", self.rec, "key", sem=_nonekey if keyfl == "nonekey" else None)
             self.gb = itertools.groupby(self.src, key)
         else:
             L = tm.load_lib()
             self.src = ClsSource(self.rec, 1, items)
-            key = None if keyfl == "none" else make_callable(keyfl, self.rec, "key")
+            key = None if keyfl == "none" else make_callable("asyncdef" if keyfl == "nonekey" else keyfl, self.rec, "key",
+                                                             sem=_nonekey if keyfl == "nonekey" else None)
             self.gb = L.groupby(self.src, key)
         self.groups = []
         self.dead = False
@@ -70,7 +76,7 @@ class GBSys:
             if r[0] == "done":
                 k, grp = r[1]
                 self.groups.append(grp)
-                return ("group", k.k if isinstance(k, Item) else k, 0)
+                return ("group", k.k if isinstance(k, Item) else 1 if k is None else k, 0)
         else:
             if g > len(self.groups):
                 return ("nogroup", 0, 0)
@@ -248,7 +254,7 @@ def collect(tier, props):
                 viol += out
             tot["replays"] += len(jobs)
             if "C06" in props:
-                fj = [(p, kf) for p in paths for kf in ("none", "asyncdef")]
+                fj = [(p, kf) for p in paths for kf in ("none", "asyncdef")]  # (nonekey is a result matter, not a failure matter)
                 for out, n in pool.imap_unordered(fault_sweep, fj, chunksize=max(1, len(fj) // 128)):
                     viol += out
                     tot["fault_runs"] += n
